@@ -67,7 +67,7 @@ CLAIMED = {
   "The generators are the oracle and are executed (generator code only; no model, array or I/O code runs). OW-SPEC parsing in the checker mirrors ow-specgen's preprocessing and regular expression.",
   "regenerate-and-diff translation validation + AST/SSA comparison of wrappers with parsed specs"),
  "C01": ("other",
-  "Decides the shape of the index algebra for every element type and both back-ends: a unit-typed abstract interpretation (S storage cells, R allocated index, V view index; Start:S, Offset:S/R, Step:R/V, OffsetStep:S/V, loc:V) of every store to the stride fields, every index into the backing store and the result of Index, with helper functions analysed from their bodies; Slice shares the receiver's storage; every element access goes through Index(loc) of the same receiver; a view object holds no second element buffer; an operation on a view cut with a step vector is never given a step from that same vector (a step is applied once). A stride-composition formula that is wrong for nested stepped slices has inconsistent units and is reported (this found the SliceInto defect, now fixed). Bounds and arithmetic beyond dimensional consistency are NOT decided.",
+  "Decides the shape of the index algebra for every element type and both back-ends: a unit-typed abstract interpretation (S storage cells, R allocated index, V view index; Start:S, Offset:S/R, Step:R/V, OffsetStep:S/V, loc:V) of every store to the stride fields, every index into the backing store and the result of Index, with helper functions analysed from their bodies; Slice shares the receiver's storage; every element access goes through Index(loc) of the same receiver; a view object holds no second element buffer; an operation on a view cut with a step vector is never given a step from that same vector (a step is applied once); Set1 builds its index the way Get1 does (found and fixed: through a 1xN view Set1 wrote k rows further down, outside the view). A stride-composition formula that is wrong for nested stepped slices has inconsistent units and is reported (this found the SliceInto defect, now fixed). Bounds and arithmetic beyond dimensional consistency are NOT decided.",
   "DESIGN.md section 2, C01",
   "Dims/OriginalDims are untyped; literals and lengths are polymorphic; a wrong constant factor would pass. In-bounds-ness of loc/dims/step is assumed.",
   "dimensional (unit) abstract interpretation over go/ssa + storage-sharing and addressing-path checks"),
